@@ -308,8 +308,12 @@ func (x *Exec) canInline(f *ssa.Function) bool {
 		}
 		for _, ins := range b.Instrs {
 			switch ins.(type) {
-			case *ssa.Go, *ssa.Select:
+			case *ssa.Go:
 				return false
+			case *ssa.Select:
+				if !ownClosure {
+					return false
+				}
 			}
 		}
 	}
